@@ -376,6 +376,13 @@ def contains(interp, container, item):
             # a constant string in a list of unknown length: an uninterpreted fact about that list (one boolean per list and constant), false for the empty list
             b = z3.Bool('contains_%s_%s' % (d.name or container.id, item))
             ctx.assume(z3.Implies(d.symlen == 0, z3.Not(b)))
+            # sound half of the existential: an arbitrary element of the list that equals the constant makes the fact true
+            try:
+                e = interp.list_elem(container, ('g', 'contains', item))
+                if _strlike(e) and not isinstance(e, TagName):
+                    ctx.assume(z3.Implies(z3.And(d.symlen >= 1, interp.to_z3(e) == z3.StringVal(item)), b))
+            except (Undecided, KeyError, AttributeError, TypeError):
+                pass
             return b
         raise Undecided('membership in symbolic list')
     if isinstance(container, (list, tuple, set, frozenset)):
